@@ -12,10 +12,10 @@ PROPERTY = "C17"
 
 META = {
     "bounds": {
-        "quick": "5 base programs (one holding the same operand texts, valid, in an earlier scope) x every insertion line x 11 error kinds x 6 kinds of symbolic preamble (0-2 symbolic characters) x {main file, included file, main file through the file API (blank-line / comment preambles, 5 error kinds)}",
+        "quick": "5 base programs (one holding the same operand texts, valid, in an earlier scope) x every insertion line x 15 error kinds (incl. unterminated /* comments; statements cut short by the end of a file without final newline) x 6 kinds of symbolic preamble (0-2 symbolic characters) x {main file, included file, main file through the file API (blank-line / comment preambles, 5 error kinds)}",
         "thorough": "same with 3 symbolic characters and two preambles stacked",
     },
-    "outside": ["wording of the messages", "parser syntax errors (not in the property's list)", "preambles longer than the bound"],
+    "outside": ["wording of the messages", "parser syntax errors other than a statement cut short by the end of a file that has no final newline", "preambles longer than the bound"],
     "oracle": "expected file name, zero-based line (newline count before the statement, a z3 term), line text and column computed from the source text",
     "stubs": ["open(): virtual include files", "print / logging discarded"],
     "assumptions": [],
@@ -47,6 +47,11 @@ ERRORS = {
     "invalid-char-bol": ("$", "scan", [0]),
     "unterminated-string": (".ascii 'abc", "scan", [7, 11]),
     "unterminated-string-data": (".text 'x", "scan", [6, 8]),
+    "unterminated-comment": ("/* never closed", "scan", [0]),
+    "unterminated-comment-multiline": ("/* never\nclosed ;", "scan", [0]),
+    # statements cut short by the end of the file (only used as the last line of a file without final newline)
+    "cut-short-operand": ("lda #", "node", None),
+    "cut-short-data": (".db 1, 2,", "node", None),
     # '?' = symbolic character (any but newline and quote): the content of the unterminated string
     "unterminated-string-any-content": (".ascii '??", "scan", [7, 10]),
 }
@@ -86,6 +91,8 @@ def jobs(tier, seed):
     for bi, base in enumerate(BASES):
         for pt in insertion_points(base):
             for ek in ERRORS:
+                if ek.startswith("cut-short") or (ek.startswith("unterminated-comment") and "*/" in base):
+                    continue      # (a later */ of the base program would close the comment)
                 for pre in ("linecomment", "blockcomment", "blank", "blockcomment-sameline", "number-at-eol", "blockcomment-empty"):
                     for where in ("main", "included", "file"):
                         if where == "file" and (pre not in ("blank", "linecomment") or ek not in ("undef-operand", "undef-data", "bad-index", "invalid-char-bol", "unterminated-string")):
@@ -103,10 +110,18 @@ def jobs(tier, seed):
                 for w in WRAPS:
                     for where in ("main", "included"):
                         out.append({"id": f"b{bi}/at{pt}/{ek}/in-{w}/{where}", "base": bi, "at": pt, "err": ek, "pre": "linecomment", "where": where, "n": n, "wrap": w})
+    # ... and as the last line of its file, the file ending without a newline (lexical errors that run into the end of input)
+    for ek in ("unterminated-string", "unterminated-string-any-content", "bad-suffix-eol", "invalid-char-bol", "bad-index", "undef-operand",
+               "unterminated-comment", "unterminated-comment-multiline", "cut-short-operand", "cut-short-data"):
+        for pre in ("linecomment", "blank"):
+            for where in ("main", "included"):
+                out.append({"id": f"b0/eof/{ek}/{pre}/{where}", "base": 0, "at": len(BASES[0].split(chr(10))) - 1, "err": ek, "pre": pre, "where": where, "n": n, "eof": True})
     if tier == "thorough":
         for bi in (0, 2):
             for pt in insertion_points(BASES[bi])[:3]:
                 for ek in ERRORS:
+                    if ek.startswith("cut-short") or (ek.startswith("unterminated-comment") and "*/" in BASES[bi]):
+                        continue
                     out.append({"id": f"b{bi}/at{pt}/{ek}/stacked/main", "base": bi, "at": pt, "err": ek, "pre": "stacked", "where": "main", "n": 2})
     return out
 
@@ -159,6 +174,8 @@ def build(spec, cx):
     body = []
     for k, c in enumerate(stmt):
         body.append(cx.char(f"q{k}", STRCHARS) if c == "?" else ord(c))
+    if spec.get("eof"):
+        return chars + body, idx, body        # nothing after the statement, not even a newline
     chars += body + [10] + [ord(c) for c in (closing + "\n" if closing else "")] + [ord(c) for c in tail]
     return chars, idx, body
 
